@@ -69,6 +69,8 @@ NextDeferAll == \E n \in Nodes : Res(n) \/ (NoResEnabled /\ Force(n))
 
 SpecSerial == Init /\ [][NextSerial]_vars
 SpecDeferAll == Init /\ [][NextDeferAll]_vars
+\* with weak fairness every request runs to completion (Terminates)
+FairSerial == SpecSerial /\ WF_vars(NextSerial)
 
 \* C13: nothing of a later top-level field before everything of every earlier one
 Serial ==
